@@ -15,6 +15,7 @@ HARNESS = os.path.join(BUILD, "harness-target", "debug", "fi-harness")
 
 
 HARNESS_RELEASE = os.path.join(BUILD, "harness-target", "release", "fi-harness")
+SEARCH_STEP_S = 300     # wall-clock box for one generation / execution / monitor call of the search
 
 
 def harness_for(flavour):
@@ -30,9 +31,12 @@ def _run_monitor(mon_id, lines, flavour, workdir):
     with open(hist, "w") as f:
         f.write("\n".join(lines) + "\n")
     binary, base = harness_for(flavour)
-    with open(hist) as hf, open(obs, "w") as of:
-        subprocess.run([binary, base], stdin=hf, stdout=of, stderr=subprocess.DEVNULL)
-    r = subprocess.run([MODELRUN, "monitor", str(mon_id), hist, obs], capture_output=True, text=True)
+    try:
+        with open(hist) as hf, open(obs, "w") as of:
+            subprocess.run([binary, base], stdin=hf, stdout=of, stderr=subprocess.DEVNULL, timeout=SEARCH_STEP_S)
+        r = subprocess.run([MODELRUN, "monitor", str(mon_id), hist, obs], capture_output=True, text=True, timeout=SEARCH_STEP_S)
+    except subprocess.TimeoutExpired:
+        return []      # the search is best effort and time-boxed
     out = []
     for l in r.stdout.splitlines():
         try:
@@ -59,8 +63,10 @@ def _model_ok(lines, workdir):
 def shrink(mon_id, line, flavour, workdir):
     parts = line.split(";")
     head, ops = parts[:3], parts[3:]
+    import time
+    t_end = time.time() + 180      # shrinking is time-boxed; a longer failing history is still a failing history
     changed = True
-    while changed and len(ops) > 1:
+    while changed and len(ops) > 1 and time.time() < t_end:
         changed = False
         cands = [";".join(head + ops[:i] + ops[i + 1:]) for i in range(len(ops))]
         if head[0] == "mpmc":
@@ -90,13 +96,25 @@ def search(prop, spec, corr, tier, seed):
 
 def _search(prop, spec, corr, tier, seed, mon, workdir):
     from registry import RUNS
+    import time
+    # the whole search is time-boxed: it only serves to turn an already detected violation into
+    # a concrete failing input
+    deadline = time.time() + (900 if tier == "thorough" else 300)
     budget = mon.get("states", 60000) * (5 if tier == "thorough" else 1)
-    for run in RUNS:
+    # runs in which the correspondence already mismatched come first
+    bad_runs = [r["name"] for r in corr.get("runs", []) if r.get("mismatches")]
+    ordered = sorted(RUNS, key=lambda r: (r["name"] not in bad_runs))
+    for run in ordered:
         if run["name"] not in mon["runs"]:
             continue
+        if time.time() > deadline:
+            return None
         hist = os.path.join(workdir, "full.hist")
         with open(hist, "w") as hf:
-            subprocess.run([MODELRUN, "explore-full", run["prim"], run["cfg"], str(budget)], stdout=hf, stderr=subprocess.DEVNULL)
+            try:
+                subprocess.run([MODELRUN, "explore-full", run["prim"], run["cfg"], str(budget)], stdout=hf, stderr=subprocess.DEVNULL, timeout=SEARCH_STEP_S)
+            except subprocess.TimeoutExpired:
+                pass   # the histories written so far are still used
             rc = run.get("random_cfg", run["cfg"])
             subprocess.run([MODELRUN, "random", run["prim"], rc, str(seed), "2000", "80"], stdout=hf, stderr=subprocess.DEVNULL)
         for cf in (os.path.join(ROOT, "corpus", run["prim"] + ".txt"), os.path.join(ROOT, "corpus", run["name"] + ".txt")):
@@ -105,7 +123,10 @@ def _search(prop, spec, corr, tier, seed, mon, workdir):
                     for l in open(cf):
                         if l.strip() and not l.startswith("#"):
                             p2 = l.strip().split(";"); p2[2] = "A"; hf.write(";".join(p2) + "\n")
-        lines = [l.strip() for l in open(hist) if l.strip()]
+        raw = open(hist).read()
+        lines = [l.strip() for l in raw.split("\n") if l.strip()]
+        if raw and not raw.endswith("\n") and lines:
+            lines.pop()        # a generator stopped by its time box may leave a partial line
         if run["prim"] == "mpmc":
             from check import retag_line
             lines = [retag_line(l) for l in lines]
@@ -113,6 +134,8 @@ def _search(prop, spec, corr, tier, seed, mon, workdir):
         if tier == "thorough" and os.path.exists(HARNESS_RELEASE) and run["prim"] != "ringbuf":
             fls += [f + "@release" for f in run["flavours"]]
         for fl in fls:
+            if time.time() > deadline:
+                return None
             fails = _run_monitor(mon["id"], lines, fl, workdir)
             if fails:
                 fails.sort(key=lambda x: (x[0], len(x[1])))
